@@ -5,7 +5,7 @@
 // output operation.  Built WITHOUT sanitizers (they interpose the same functions).
 //   W new name|fd none|gzip|xz <id> [budget]     W write <hex>     W writerep <hexbyte> <count>     W rot <id> [budget]     W end
 //   X new name|fd none|gzip|xz <id> <maxitems>   X qr <name-bytes> <n>   X wb   X rot <id> <export> [budget]   X counts   X end     (exporter level)
-//   CRASHAT <k>      TRACE      FILES
+//   CRASHAT <k>      FAILONCE <k>      SHORTONCE <k> <n>      TRACE      FILES
 #define _GNU_SOURCE 1
 #include <dlfcn.h>
 #include <sys/uio.h>
@@ -33,6 +33,7 @@ static std::map<std::string, long long> g_budget;     // remaining bytes the "di
 static std::vector<std::string> g_trace;
 static long g_ops = 0, g_crash_at = -1;
 static long g_writes = 0, g_fail_once = -1;     // FAILONCE k: the k-th data write is rejected once with ENOSPC
+static long g_short_once = -1, g_short_n = 0;   // SHORTONCE k n: the k-th data write accepts only n bytes (a short count), once; later writes work
 static bool g_in_hook = false;
 
 static std::string rel(const char* p) {
@@ -86,6 +87,7 @@ extern "C" ssize_t write(int fd, const void* buf, size_t len) {
     op_point();
     if (++g_writes == g_fail_once) { ev("write " + it->second + " 0/" + std::to_string(len) + " ENOSPC-once"); errno = ENOSPC; return -1; }
     size_t allowed; if (budgeted(fd, len, allowed) < 0) { ev("write " + it->second + " 0/" + std::to_string(len) + " ENOSPC"); return -1; }
+    if (g_writes == g_short_once && (size_t)g_short_n < allowed) allowed = g_short_n;
     ssize_t n = r(fd, buf, allowed);
     ev("write " + it->second + " " + std::to_string(n) + "/" + std::to_string(len));
     return n;
@@ -99,6 +101,7 @@ extern "C" ssize_t writev(int fd, const struct iovec* iov, int cnt) {
     op_point();
     if (++g_writes == g_fail_once) { ev("write " + it->second + " 0/" + std::to_string(all.size()) + " ENOSPC-once"); errno = ENOSPC; return -1; }
     size_t allowed; if (budgeted(fd, all.size(), allowed) < 0) { ev("write " + it->second + " 0/" + std::to_string(all.size()) + " ENOSPC"); return -1; }
+    if (g_writes == g_short_once && (size_t)g_short_n < allowed) allowed = g_short_n;
     ssize_t n = r(fd, all.data(), allowed);
     ev("write " + it->second + " " + std::to_string(n) + "/" + std::to_string(all.size()));
     return n;
@@ -162,6 +165,7 @@ int main() {
             if (t[0] == "CASE") { OUT("CASE %s", t.size() > 1 ? t[1].c_str() : ""); }
             else if (t[0] == "CRASHAT") { g_crash_at = atol(t[1].c_str()); OUT("ok"); }
             else if (t[0] == "FAILONCE") { g_fail_once = atol(t[1].c_str()); OUT("ok"); }
+            else if (t[0] == "SHORTONCE") { g_short_once = atol(t[1].c_str()); g_short_n = atol(t[2].c_str()); OUT("ok"); }
             else if (t[0] == "PRE") {            // a file that exists before: PRE <relpath> <hex>
                 g_in_hook = true; { FILE* f = fopen((g_dir + "/" + t[1]).c_str(), "wb"); std::string s = unhex(t[2]); fwrite(s.data(), 1, s.size(), f); fclose(f); } g_in_hook = false; OUT("ok");
             }
